@@ -434,6 +434,21 @@ func goHelper(v VD, lg *runLog) interface{} {
 		}
 	case 107:
 		return func(x interface{}) interface{} { return x }
+	case 109:
+		// helpers whose parameters are TYPED as trusted HTML: only values that already are
+		// template.HTML may be bound to them (Go-only)
+		return func(h template.HTML) template.HTML { return "<b>" + h + "</b>" }
+	case 110:
+		return func(sep string, hs ...template.HTML) template.HTML {
+			var out template.HTML
+			for i, h := range hs {
+				if i > 0 {
+					out += template.HTML(sep)
+				}
+				out += h
+			}
+			return out
+		}
 	case 108:
 		// a helper that fills defaults into the options map it was given (Go-only: the model
 		// classifies calls of it as outside its fragment)
